@@ -16,7 +16,10 @@ CONSTANTS Names, ResNames, ResIds, Chains, ICodes,
           Serials,      \* serial-number boundary values used inside the invariants
           Shapes,       \* sequence of shapes; a shape is a sequence of molecule sizes
           Degrees,      \* set of bond degrees of the hub
-          Window        \* how far from a boundary serial a hub may sit
+          Window,       \* how far from a boundary serial a hub may sit
+          Widths,       \* GRO coordinate column widths (write_gro precision + 1)
+          CoordsP,      \* width -> sequence of values (integer thousandths; also used as ten-thousandths for velocities) that fit it
+          NamesP, ResNamesP, ResIdsP
 
 VARIABLES case, out
 vars == <<case, out>>
@@ -82,9 +85,37 @@ ExpectSys(c) ==
       hubfield |-> Fmt(IntText(hs), 5, ">"), lines |-> lines, pairs |-> PairsOfLines(lines),
       ters |-> [k \in DOMAIN sizes |-> TerSerialC(cum, k)], fits |-> Fits5(sizes)]
 
-Init == case \in PdbCases \cup GroCases \cup SysCases /\ out = [pending |-> TRUE]
+(* ---- GRO files with coordinate columns of width w, with or without velocities ("grow" cases) ---- *)
+CoordP(w, i) == CoordsP[w][((i - 1) % Len(CoordsP[w])) + 1]
+GrowCases == UNION {[kind : {"grow"}, w : {w}, vel : BOOLEAN, name : NamesP, resname : ResNamesP, resid : ResIdsP,
+                     xi : DOMAIN CoordsP[w]] : w \in Widths}
+GrowRec(c, serial) ==
+  [resid |-> c.resid, resname |-> c.resname, name |-> c.name, serial |-> serial,
+   x |-> CoordP(c.w, c.xi), y |-> CoordP(c.w, c.xi + 1), z |-> CoordP(c.w, c.xi + 2),
+   vx |-> CoordP(c.w, c.xi + 3), vy |-> CoordP(c.w, c.xi + 4), vz |-> CoordP(c.w, c.xi + 5)]
+Narrower(w) == LET below == {v \in Widths : v < w} IN
+               IF below = {} THEN w - 1 ELSE CHOOSE v \in below : \A u \in below : u <= v
+NumFields(T) == {i \in DOMAIN T : T[i].kind \in {"d3", "d4"}}
+(* every number of the record fills its column up to at most one blank: then no other width reads the same numbers *)
+WidthSensitive(T, rec, w) == \A i \in NumFields(T) : Len(TextOf(T[i].kind, rec[T[i].name])) >= w - 1
+
+ExpectGrow(c) ==
+  LET T    == GroAtomWPV(c.w, c.vel)
+      rec  == GrowRec(c, 1)
+      line == Render(T, rec)
+      b    == Read(T, line)
+      g(n) == Get(T, b, n)
+  IN [pending |-> FALSE, line |-> line, input |-> rec,
+      back |-> [name |-> g("name"), resname |-> g("resname"), resid |-> g("resid"), x |-> g("x"), y |-> g("y"), z |-> g("z"),
+                vx |-> IF c.vel THEN g("vx") ELSE 0, vy |-> IF c.vel THEN g("vy") ELSE 0, vz |-> IF c.vel THEN g("vz") ELSE 0],
+      names |-> Admissible(T[FieldIdx(T, "name")], c.name),
+      over |-> Overflowing(T, rec),
+      narrow |-> {T[i].name : i \in {j \in NumFields(T) : ~FitsW(TextOf(T[j].kind, rec[T[j].name]), Narrower(c.w))}},
+      sensitive |-> WidthSensitive(T, rec, c.w)]
+
+Init == case \in PdbCases \cup GroCases \cup SysCases \cup GrowCases /\ out = [pending |-> TRUE]
 Eval == /\ out.pending
-        /\ out' = IF case.kind = "atom" THEN ExpectAtom(case) ELSE ExpectSys(case)
+        /\ out' = IF case.kind = "atom" THEN ExpectAtom(case) ELSE IF case.kind = "grow" THEN ExpectGrow(case) ELSE ExpectSys(case)
         /\ UNCHANGED case
 Spec == Init /\ [][Eval]_vars
 
@@ -134,6 +165,40 @@ TruncationKeepsTheDocumentedEnd ==
     /\ ("resname" \in out.over) => out.back.resname = SubSeq(case.resname, 1, IF case.fmt = "pdb" THEN 3 ELSE 5)
     /\ (case.fmt = "pdb" /\ "name" \in out.over) => out.back.name = SubSeq(case.name, 1, 4)
     /\ out.back.name \in out.names
+
+(* ---- grow cases ---- *)
+(* the table of width 8 is the GRO table used everywhere else *)
+Width8IsTheOldTable ==
+  Done("atom") /\ case.fmt = "gro" =>
+    \A s \in Serials : LET rec == AtomRec(case, s) IN
+                         /\ Render(GroAtomWP(8), rec) = Render(GroAtomW, rec)
+                         /\ Read(GroAtomWP(8), Render(GroAtomW, rec)) = Read(GroAtomR, Render(GroAtomW, rec))
+
+GroWidthLaws ==
+  Done("grow") =>
+    \A s \in Serials :
+      LET w    == case.w
+          T    == GroAtomWPV(w, case.vel)
+          rec  == GrowRec(case, s)
+          line == Render(T, rec)
+          b    == Read(T, line)
+      IN /\ Len(line) = GroLineLen(w, case.vel)
+         \* the text itself tells its layout
+         /\ DotWidth(line) = w /\ HasVel(line) = case.vel
+         \* every field in its own columns, whatever overflows elsewhere
+         /\ \A i \in DOMAIN T : FieldSlice(T[i], line) = Fmt(TextOf(T[i].kind, rec[T[i].name]), T[i].w, T[i].align)
+         \* numbers that fit the width are returned exactly (all values of CoordsP[w] fit w)
+         /\ \A i \in NumFields(T) : FitsW(TextOf(T[i].kind, rec[T[i].name]), w) /\ b[i] = rec[T[i].name]
+         \* the width matters: sliced with the table of any other width a full record does not give the same numbers
+         /\ WidthSensitive(T, rec, w) =>
+               \A v \in Widths \ {w} : LET bv == Read(GroAtomWPV(v, case.vel), line) IN \E i \in NumFields(T) : bv[i] # rec[T[i].name]
+
+(* boundary values: what fits w and not the next narrower width is in the table, at both ends *)
+BoundariesCovered ==
+  \A w \in Widths : LET S == {CoordsP[w][i] : i \in DOMAIN CoordsP[w]} IN
+                      /\ \A v \in S : MinFit(w) <= v /\ v <= MaxFit(w)
+                      /\ \E v \in S : v > MaxFit(Narrower(w))
+                      /\ \E v \in S : v < MinFit(Narrower(w))
 
 (* ---- sys cases ---- *)
 ConectExactUpTo99999 ==
